@@ -696,7 +696,7 @@ def mon_c13(ex, info, col):
                     out.append(V("C13", "C13:capacity-exceeded[%s]" % ("nested" if any(_shape(info, c) == "nested" for c in lst) else "flat"), ex, {"t": t, "phase": ph, "workplace": wpn, "placed": lst, "used": used, "capacity": cap}))
             for cn, (cs, wpn) in comps.items():
                 if len(where.get(cn, [])) > 1:
-                    out.append(V("C13", "C13:component-at-several-workplaces", ex, {"t": t, "phase": ph, "component": cn, "workplaces": where[cn]}))
+                    out.append(V("C13", "C13:component-at-several-workplaces[%s]" % _shape(info, cn), ex, {"t": t, "phase": ph, "component": cn, "workplaces": where[cn]}))
                 if wpn is not None and cn not in wps.get(wpn, ()):
                     out.append(V("C13", "C13:component-reports-place-but-workplace-does-not-list-it[%s]" % _shape(info, cn), ex, {"t": t, "phase": ph, "component": cn, "workplace": wpn}))
             if ph == "updated":
@@ -773,7 +773,7 @@ def mon_c13(ex, info, col):
             for cn in lst:
                 rec = m.byname[cn].placed_workplace_id_record
                 if k < len(rec) and rec[k] != wpn:
-                    out.append(V("C13", "C13:logs-disagree-workplace-lists-component-logged-elsewhere", ex, {"k": k, "component": cn, "workplace": wpn, "component_log": rec[k]}))
+                    out.append(V("C13", "C13:logs-disagree-workplace-lists-component-logged-elsewhere[%s]" % _shape(info, cn), ex, {"k": k, "component": cn, "workplace": wpn, "component_log": rec[k]}))
     for tn in info.tnames:
         if not info.needs_facility(tn) or tn not in info.task_comp:
             continue
